@@ -22,6 +22,14 @@ CHECKS = {
          "runtime monitor of variable-read events (tr.R) and yielded values of scope-stressing programs vs the reference coroutine (Go's own scoping is the oracle)",
          "Exploration: directed shadowing/capture cases + PRNG programs over a 4-name pool (shadowing in nested blocks, if/for/switch/type-switch initialisers, range variables, case clauses, closures created before a yield and called after it, yielding post statements reading body-shadowed names); full-trace equality under every tape path.",
          E1NOTE + "Scratch modules use language version go1.23 (per-iteration loop variables): the single known finding of C03 depends on that."),
+ "C04": ("E1 diff-trace",
+         "runtime differential monitor: range loops inside compiled generators vs Go's native range statement executing the same text on the reference coroutine; systematic kinds x forms x bodies x mutations",
+         "Exploration: systematic cross product of 18 collection kinds x 8 variable forms x 6 body shapes x mutations of the ranged collection (a PRNG subset of ~900 in the quick tier, all ~1300 in the thorough tier) + directed cases; full-trace equality, range expression evaluation counted.",
+         E1NOTE + "Multi-entry maps are compared as sorted multisets (map order is random)."),
+ "C05": ("E1 diff-trace",
+         "runtime monitor of delegating generator call graphs vs the reference coroutine (full interleaved trace incl. argument evaluation and delegate-side effects), plus metamorphic twins with the delegation spelled out as a range loop",
+         "Exploration: directed delegation cases (depth-3000 chain drained completely, recursion, partially consumed / twice-delegated iterators, for-post and switch positions, generic and method generators) + PRNG call graphs, each also as spelled-out twin; all tape paths and truncation histories.",
+         E1NOTE),
  "C07": ("E1 diff-trace + hook H1",
          "runtime differential monitor between the two real artefacts: unoptimised stage-1 package (snapshot by the verif hook inside the real Compile) vs optimised package, full interleaved traces; build of the final package",
          "Exploration: all E1 streams + optimiser-directed cases; stage-1 and final packages are both built and executed under every tape path and history; traces must be identical and the final package must build whenever stage-1 does; the evidence counts in how many programs the optimiser actually changed the text.",
